@@ -42,7 +42,20 @@ def resolve(preempt, horizon, dry):
         elif p[0] == "localfrac":
             n = max(1, dry.threads[int(p[1])].steps)
             out.append(("local", int(p[1]), 1 + int(p[2] * n)))
+        elif p[0] == "shallow":
+            # a step of that thread at which it executes a line of the API layer (plug-in, bec2format,
+            # key-agreement wrapper) rather than deep arithmetic: where shared state is handed over
+            cand = [st for tid, st in dry.shallow_steps if tid == int(p[1])]
+            if cand:
+                out.append(("local", int(p[1]), cand[int(p[2] * len(cand)) % len(cand)]))
     return out
+
+
+def shallow_files():
+    base = os.path.dirname(env.bec2format.__file__)
+    pdir = os.path.dirname(env.plugin.__file__)
+    return set(glob.glob(os.path.join(base, "*.py"))) | {os.path.join(pdir, "__init__.py"),
+                                                          os.path.join(pdir, "ecdsa", "ecdh.py")}
 
 
 def run_conc(make_bodies, preempt, choices, with_ecdsa=False, first=None, max_steps=3_000_000):
@@ -58,6 +71,7 @@ def run_conc(make_bodies, preempt, choices, with_ecdsa=False, first=None, max_st
         return s
     env.restore_registry()
     dry = build([], [])
+    dry.shallow_files = shallow_files()
     dry.run(first=0)
     env.restore_registry()
     pre = resolve(preempt, max(dry.step, 1), dry)
@@ -72,7 +86,9 @@ def sched_spec(r):
     d = r.choice([0, 1, 1, 2, 3])
     x = r.random()
     k = r.random()
-    if k < 0.35:
+    if k < 0.2:
+        first = ["shallow", 0, x]                      # at an API-level line of the first thread
+    elif k < 0.35:
         first = ["local", 0, 1 + int(x * 60)]          # right at the start (first use of fresh state)
     elif k < 0.5:
         first = ["localfrac", 0, 1.0 - x ** 3 * 0.2]   # near the end
